@@ -403,7 +403,7 @@ pub fn ref_instr(s0: &StateSpec, name: &str) -> Expect {
         }
     }
     match name {
-        "NOOP" | "CODE.NOOP" => fired(s),
+        "NOOP" | "CODE.NOOP" | "SENSOR.READ" | "MyInstruction" | "X.Y.Z" => fired(s),
         "INTEGER.DDUP" => {
             if s.ints.len() >= 2 {
                 let (a, b) = (s.ints[0], s.ints[1]);
